@@ -30,8 +30,12 @@ class ModelMeta(SingleType):
     def __eq__(self, other):
         if isinstance(other, dict):
             return self.type == other
-        else:
-            return super().__eq__(other)
+        if isinstance(other, ModelMeta):
+            # Two models are the same model or they are not (their fields are compared by the merge comparators and
+            # nowhere else; a structural comparison does not end on models that refer to themselves). The index would
+            # not do: it is unique within one registry only
+            return self is other
+        return super().__eq__(other)
 
     def __hash__(self):
         return hash(self.index)
